@@ -338,6 +338,39 @@ static void misuse()
     pmc_outcome("which=%d", which);
 }
 
+// the spinlocks from plain OS threads (every atomic step of lock/unlock is a scheduling point, no runtime in the
+// way): T threads x OPS lock/unlock sections; the hand-over after a release with several contenders (a waiter that
+// saw the lock free, a fresh locker, the previous owner re-locking) needs 3-4 deviations, cheap only here
+template <typename L, int T, int OPS>
+static void spin_os()
+{
+    static L lk;
+    new (&lk) L();
+    pmc_watch(&lk, sizeof lk, "spinlock");
+    static int inside, total;
+    inside = total = 0;
+    std::vector<std::thread> th;
+    for (int t = 0; t < T; ++t)
+        th.emplace_back([] {
+            for (int i = 0; i < OPS; ++i)
+            {
+                lk.lock();
+                ++inside;
+                PMC_ASSERT(inside == 1, "mutual-exclusion", "%d threads inside the critical section of a spinlock", inside);
+                pmc_point("in-critical-section");
+                PMC_ASSERT(inside == 1, "mutual-exclusion", "%d threads inside the critical section of a spinlock", inside);
+                ++total;
+                --inside;
+                lk.unlock();
+            }
+        });
+    for (auto& t : th) t.join();
+    PMC_ASSERT(total == T * OPS, "lost-update", "%d of %d sections ran", total, T * OPS);
+    PMC_ASSERT(lk.try_lock(), "unlock-lost", "the spinlock is not free after all sections have ended");
+    lk.unlock();
+    pmc_outcome("total=%d", total);
+}
+
 int main(int argc, char** argv)
 {
     static const char* focus = "F-addr: the mutex object (owner id, internal spinlock, waiter queue) + each task's thread_data (state word)";
@@ -351,6 +384,9 @@ int main(int argc, char** argv)
         {"recursive_mutex_2", recursive_tasks<pika::detail::recursive_mutex_impl<pika::mutex>, 2>, 1, 2, 0.1, 0.1, 1, "F-addr: recursive_mutex_impl<pika::mutex> + thread_data", nullptr, nullptr},
         {"recursive_spin_2", recursive_tasks<pika::detail::recursive_mutex_impl<>, 2>, 2, 3, 0.3, 0.1, 1, "F-addr: recursive_mutex (recursion_count, locking_context, inner mutex) + thread_data", nullptr, nullptr},
         {"spinlock_2x1", mutex_tasks<pika::concurrency::detail::spinlock, 2, 1, 3>, 1, 3, 0.05, 0.05, 1, "F-addr: concurrency::detail::spinlock + thread_data", nullptr, nullptr},
+        {"spinlock_os_3x1", spin_os<pika::concurrency::detail::spinlock, 3, 1>, 4, 5, 0.05, 0.05, 1, "F-addr: concurrency::detail::spinlock; 3 OS threads", nullptr, nullptr},
+        {"spinlock_os_2x2", spin_os<pika::concurrency::detail::spinlock, 2, 2>, 4, 5, 0.05, 0.05, 1, "F-addr: concurrency::detail::spinlock; 2 OS threads, two sections each", nullptr, nullptr},
+        {"ts_spinlock_os_3x1", spin_os<pika::detail::spinlock, 3, 1>, 4, 5, 0.05, 0.05, 1, "F-addr: pika::detail::spinlock (thread_support); 3 OS threads", nullptr, nullptr},
         {"misuse", misuse, 1, 2, 0.1, 0.05, 1, focus, nullptr, nullptr},
         {"ts_spinlock_2x1", mutex_tasks<pika::detail::spinlock, 2, 1, 3>, 1, 3, 0.05, 0.05, 1, "F-addr: pika::detail::spinlock (thread_support) + thread_data", nullptr, nullptr},
     };
